@@ -164,6 +164,8 @@ class World:
         for pt in sorted(self.plaintexts):
             if hashlib.new(alg, salt + pt.encode()).digest() == digest and len(salt) == hashlib.new(alg).digest_size:
                 return {"t": "digest", "alg": alg, "pt": codec.to_abs(pt)}
+            if salt == b"" and hashlib.new(alg, pt.encode()).digest() == digest:
+                return {"t": "digest", "alg": alg, "pt": codec.to_abs(pt), "salt": "empty"}
         return {"t": "digest", "alg": alg, "pt": {"t": "obj", "n": "unknown-plaintext"}}
 
     def abstract_field(self, f, v):
@@ -205,6 +207,8 @@ class World:
     def remember(self, v):
         if v["t"] == "str":
             self.plaintexts.add("".join(codec.seq(v["s"])))
+        elif v["t"] == "digest":
+            self.remember(v["pt"])
         elif v["t"] in ("list", "tuple"):
             for i in codec.seq(v["l"]):
                 self.remember(i)
